@@ -373,47 +373,47 @@ def is_flat(t: sg.T) -> bool:
     return t.kind != "msg"
 
 
-def leaf_bytes(t: sg.T, v: Any) -> List[int]:
+def leaf_bytes(t: sg.T, v: Any, host: str = "LE") -> List[int]:
     if t.kind == "bool":
         return [1 if v else 0]
     if t.kind == "byte":
         return [v & 255]
     w = storage_bytes(t.n)
-    return list((v & ((1 << (8 * w)) - 1)).to_bytes(w, "little"))
+    return list((v & ((1 << (8 * w)) - 1)).to_bytes(w, "little" if host == "LE" else "big"))
 
 
-def py_store(t: sg.T, v: Any) -> Any:
-    """object tree (JSON form) of value v: what Coq's [store LE (norm t) v] must also give"""
+def py_store(t: sg.T, v: Any, host: str = "LE") -> Any:
+    """object tree (JSON form) of value v: what Coq's [store <host> (norm t) v] must also give"""
     k = t.kind
     if k == "alias":
-        return py_store(t.t, v)
+        return py_store(t.t, v, host)
     if k == "arr":
         if is_flat(t.t):
             out: List[int] = []
             for x in v:
-                out.extend(py_store(t.t, x)["B"])
+                out.extend(py_store(t.t, x, host)["B"])
             return {"B": out}
-        return {"L": [py_store(t.t, x) for x in v]}
+        return {"L": [py_store(t.t, x, host) for x in v]}
     if k == "msg":
-        return {"S": {str(n): py_store(ft, v[n]) for n, _, ft in t.fields}}
-    return {"B": leaf_bytes(t, v)}
+        return {"S": {str(n): py_store(ft, v[n], host) for n, _, ft in t.fields}}
+    return {"B": leaf_bytes(t, v, host)}
 
 
-def junk_obj(t: sg.T, rng: random.Random, v: Any = None) -> Any:
+def junk_obj(t: sg.T, rng: random.Random, v: Any = None, host: str = "LE") -> Any:
     """arbitrary storage contents; when v is given only the bits above the field width are junk"""
     k = t.kind
     if k == "alias":
-        return junk_obj(t.t, rng, v)
+        return junk_obj(t.t, rng, v, host)
     if k == "arr":
         vs = v if v is not None else [None] * t.cap
         if is_flat(t.t):
             out: List[int] = []
             for x in vs:
-                out.extend(junk_obj(t.t, rng, x)["B"])
+                out.extend(junk_obj(t.t, rng, x, host)["B"])
             return {"B": out}
-        return {"L": [junk_obj(t.t, rng, x) for x in vs]}
+        return {"L": [junk_obj(t.t, rng, x, host) for x in vs]}
     if k == "msg":
-        return {"S": {str(n): junk_obj(ft, rng, None if v is None else v[n]) for n, _, ft in t.fields}}
+        return {"S": {str(n): junk_obj(ft, rng, None if v is None else v[n], host) for n, _, ft in t.fields}}
     if k == "bool":
         return {"B": [(rng.randrange(256) & 0xFE) | (int(bool(v)) if v is not None else rng.randrange(2))]}
     if k == "byte":
@@ -422,7 +422,7 @@ def junk_obj(t: sg.T, rng: random.Random, v: Any = None) -> Any:
     z = rng.getrandbits(8 * w)
     if v is not None:
         z = (z & ~((1 << t.n) - 1)) | (v & ((1 << t.n) - 1))
-    return {"B": list(z.to_bytes(w, "little"))}
+    return {"B": list(z.to_bytes(w, "little" if host == "LE" else "big"))}
 
 
 def coq_obj(t: sg.T, o: Any) -> str:
@@ -509,8 +509,14 @@ def load_corpus(prop: str) -> List[Dict[str, Any]]:
 
 def run_schemas(ck: Check, be: bool, items: List[Dict[str, Any]], tag: str, all_langs: bool = False,
                 cfgs: Optional[List[Dict[str, Any]]] = None, env: Optional[Dict[str, str]] = None,
-                want_spec: bool = True) -> Dict[str, Any]:
+                want_spec: bool = True, host: str = "LE") -> Dict[str, Any]:
+    """host = "BE": the storage handed to the implementation is laid out big-endian; only meaningful for
+    the -DBP_BIG_ENDIAN build on schemas of the class cboundary.be_exact, where no native multi-byte
+    access is executed, so that this x86 run IS the (B,E) = (BE,BE) behaviour and is compared with
+    the SPECIFICATION (and with the model at (BE,BE))."""
     B = "BE" if be else "LE"
+    E = host
+    spec_on = want_spec and (B == E)
     cfgs = cfgs if cfgs is not None else schema_configs(ck, be)
     jobs = []
     for i, it in enumerate(items):
@@ -562,7 +568,7 @@ def run_schemas(ck: Check, be: bool, items: List[Dict[str, Any]], tag: str, all_
             if c["v"] is not None:
                 defs += f"Definition v_{i}_{k} : val := {sg.coq_val(s.top, c['v'])}.\n"
             if c["kind"] == "value":
-                exprs.append(f"(store_case t_{i} v_{i}_{k} o_{i}_{k})")
+                exprs.append(f"(store_case_h {E} t_{i} v_{i}_{k} o_{i}_{k})")
                 metas.append((i, "store", k, None))
             seen = set()
             for cfgname, rr in r["runs"].items():
@@ -586,18 +592,18 @@ def run_schemas(ck: Check, be: bool, items: List[Dict[str, Any]], tag: str, all_
                 seen.add(key)
                 stats["distinct_evaluated"] += 1
                 eclean = cbool(rc["enc_guards"] and rc["enc_struct_same"])
-                spec = cbool(want_spec and not be)
-                exprs.append(f"(enc_case {B} LE {spec} t_{i} o_{i}_{k} {zl(rc['enc'])} {eclean})")
+                spec = cbool(spec_on)
+                exprs.append(f"(enc_case_h {B} {E} {spec} t_{i} o_{i}_{k} {zl(rc['enc'])} {eclean})")
                 metas.append((i, "enc", k, cfgname))
-                if c["v"] is not None and not be and want_spec:
+                if c["v"] is not None and spec_on:
                     exprs.append(f"(enc_val_case t_{i} v_{i}_{k} {zl(rc['enc'])})")
                     metas.append((i, "encv", k, cfgname))
                 dclean = cbool(rc["dec_guards"] and rc["dec_in_same"] and rc["dec_pad_ok"])
                 dobj = coq_obj(s.top, rc["dec"])
-                exprs.append(f"(dec_case {B} LE t_{i} {zl(rc['enc'])} {dobj} {dclean})")
+                exprs.append(f"(dec_case {B} {E} t_{i} {zl(rc['enc'])} {dobj} {dclean})")
                 metas.append((i, "dec", k, cfgname))
-                if c["kind"] == "value" and not be and want_spec:
-                    exprs.append(f"(dec_val_case t_{i} v_{i}_{k} {dobj} {dclean})")
+                if c["kind"] == "value" and spec_on:
+                    exprs.append(f"(dec_val_case_h {E} t_{i} v_{i}_{k} {dobj} {dclean})")
                     metas.append((i, "decv", k, cfgname))
         sh.add(defs, exprs, metas)
     out = sh.run(header=HEADER)
@@ -628,7 +634,7 @@ def run_schemas(ck: Check, be: bool, items: List[Dict[str, Any]], tag: str, all_
             continue
         rc = results[i]["runs"][cfgname]["cases"][k]
         replay = {"schema": sg.schema_to_json(s), "value": None if c["v"] is None else sg.value_to_json(s.top, c["v"]),
-                  "storage": c["obj"], "kind": c["kind"], "config": cfgname, "build": B, "observed": rc,
+                  "storage": c["obj"], "kind": c["kind"], "config": cfgname, "build": B, "storage_byte_order": E, "observed": rc,
                   "origin": it["origin"], "stage": kind}
         if codev & 2:
             stats["spec_mismatches"] += 1
@@ -641,7 +647,7 @@ def run_schemas(ck: Check, be: bool, items: List[Dict[str, Any]], tag: str, all_
         elif codev & 1:
             stats["tie_mismatches"] += 1
             if stats["tie_mismatches"] <= 3:
-                ck.broken(Broken(f"tie T2: model CRt ({B},LE) and the generated C + runtime ({cfgname}) disagree on "
+                ck.broken(Broken(f"tie T2: model CRt ({B},{E}) and the generated C + runtime ({cfgname}) disagree on "
                                  f"{kind} (schema {it['origin']}, case #{k} {c['kind']}; if the model's outcome is MemErr the "
                                  "implementation accessed memory outside the exact-size buffer / field objects)",
                                  json.dumps(replay)[:2500]))
@@ -758,13 +764,26 @@ def gen_base_rev_cases(ck: Check, rng: random.Random) -> List[Dict[str, Any]]:
 
 
 def run_c06(ck: Check) -> None:
+    import cboundary
     prove_and_model(ck, "C06.v")
     parts: Dict[str, Dict[str, Any]] = {}
-    items = load_corpus("C06") + gen_schema_cases(ck, ck.n(80, 600), ck.n(3, 5), 2)
+    items = (load_corpus("C06") + cboundary.items_of(ck.seed, cboundary.c_catalogue(ck.seed, ("long", "narrow", "samename")), n_values=2, junk=1) +
+             gen_schema_cases(ck, ck.n(60, 500), ck.n(3, 5), 2))
     parts["runtime_BE_build_on_LE_host"] = rt_stream(ck, True, ("copy", "base", "int", "array"), "be")
     rng = random.Random(f"{ck.prop}:{ck.seed}:rev")
     parts["base_type_BE_build_BE_storage"] = run_rt(ck, True, gen_base_rev_cases(ck, rng), "rev")
     parts["schemas_BE_build_on_LE_host"] = run_schemas(ck, True, items, "b")
+    # the property itself on x86: schemas on which the BE build executes no native multi-byte access
+    # (no extensible prefix, no multi-byte sign fix-up), fed BIG-ENDIAN storage: this is the (BE,BE)
+    # behaviour; compared with the specification and with the model at (BE,BE)
+    items_x = cboundary.items_of(ck.seed, cboundary.be_exact_catalogue(ck.seed, ck.quick), n_values=3, junk=1, host="BE")
+    for it in gen_schema_cases(ck, ck.n(40, 400), 3, 0, tag="bex",
+                               params_for=lambda i, r: sg.Params(allow_ext=False, allow_signed=False)):
+        s_ = it["schema"]
+        it["cases"] = [dict(v=c["v"], obj=py_store(s_.top, c["v"], "BE"), kind="value") for c in it["cases"]]
+        items_x.append(it)
+    assert all(cboundary.be_exact(it["schema"].top) for it in items_x)
+    parts["schemas_BE_build_BE_storage_vs_spec"] = run_schemas(ck, True, items_x, "bx", host="BE")
     if not ck.quick:
         env = san_env()
         scfg = [dict(name="be-gcc-asan-ubsan", cc="gcc", flags=SAN_FLAGS + ["-DBP_BIG_ENDIAN"])]
